@@ -22,6 +22,45 @@ def load_known(prop):
     return [e for e in mine if e.get("status") == "finding"], [e for e in mine if e.get("status") == "fixed"]
 
 
+# keys of coverage that EVIDENCE.schema.json reserves with a fixed type (a file that does not validate counts as no evidence)
+_RESERVED = {"evaluations": int, "distinct_nontrivial": int, "rule": str, "samples": list, "states": int, "transitions": int, "traces_validated_against_impl": int,
+             "obligations": int, "discharged": int, "checker_cmd": str, "trusted_base": list, "programs": int, "disagreements_checked": int, "explanation": str, "exhaustive": bool}
+
+
+def check_evidence_shape(ev):
+    """Own guard against schema drift: reserved coverage keys must have the schema's type; full validation with jsonschema when available."""
+    cov = ev.get("coverage", {})
+    for k, t in _RESERVED.items():
+        if k in cov and (not isinstance(cov[k], t) or (t is int and isinstance(cov[k], bool))):
+            raise RuntimeError(f"evidence: coverage.{k} must be {t.__name__}, got {type(cov[k]).__name__}")
+    for k in ("evaluations", "distinct_nontrivial", "rule", "samples"):
+        if k not in cov:
+            raise RuntimeError(f"evidence: coverage.{k} missing")
+    if not cov["samples"]:
+        raise RuntimeError("evidence: coverage.samples is empty")
+    try:
+        import jsonschema
+        with open("/root/.vp/EVIDENCE.schema.json") as f:
+            jsonschema.validate(ev, json.load(f))
+    except ImportError:
+        pass
+    except OSError:
+        pass
+
+
+def validate_with_schema(path):
+    """Full validation against /root/.vp/EVIDENCE.schema.json with the tooling interpreter (the system python has no jsonschema)."""
+    import shutil
+    import subprocess
+    vt = shutil.which("python3-vt")
+    if not vt or not os.path.exists("/root/.vp/EVIDENCE.schema.json"):
+        return
+    code = "import json,sys,jsonschema; jsonschema.validate(json.load(open(sys.argv[1])), json.load(open('/root/.vp/EVIDENCE.schema.json')))"
+    p = subprocess.run([vt, "-c", code, path], stdout=subprocess.PIPE, stderr=subprocess.STDOUT, text=True)
+    if p.returncode != 0:
+        raise RuntimeError("evidence file does not validate against EVIDENCE.schema.json: " + p.stdout[-600:])
+
+
 def write_evidence(prop, tier, seed, level, coverage, assumptions, wall_s, violations):
     evdir = os.path.join(VERIF, "evidence") if build.REPO == "/repo" else os.path.join(build.BUILD, "evidence-" + os.path.basename(build.lib_dir("x")))  # sensitivity runs on scratch copies never touch the committed evidence
     os.makedirs(evdir, exist_ok=True)
@@ -29,12 +68,14 @@ def write_evidence(prop, tier, seed, level, coverage, assumptions, wall_s, viola
         "property_id": prop, "tier": tier, "seed": seed, "level": level,
         "coverage": coverage, "assumptions": assumptions, "wall_s": round(wall_s, 2), "violations": violations,
     }
+    check_evidence_shape(ev)
     path = os.path.join(evdir, f"{prop}.json")
     tmp = path + ".tmp"
     with open(tmp, "w") as f:
         json.dump(ev, f, indent=1, sort_keys=True)
         f.write("\n")
     os.replace(tmp, path)
+    validate_with_schema(path)
     return path
 
 
@@ -154,7 +195,7 @@ def run_fuzz_property(prop, spec, tier, seed):
     coverage = {
         "evaluations": total["evals"], "distinct_nontrivial": total["distinct"], "nontrivial": total["nontrivial"],
         "rule": spec["rule"], "samples": parse_samples(total["samples"]), "classes": total["classes"],
-        "per_target": per_target, "programs": prog_results, "excluded_known_findings": excluded,
+        "per_target": per_target, "extra_programs": prog_results, "excluded_known_findings": excluded,
         "inconclusive": {"noise_artifacts": len(noise), "details": [n.get("kind") for n in noise][:20]},
     }
     if spec.get("exhaustive_note"):
